@@ -26,7 +26,7 @@ ASSUMPTIONS = ['floats compared to 1e-6 relative (the mirrored optimiser traject
                'residual_mean on the scale of residual_std', 'island polarity class decided from the image with the forced '
                'rms by aegmon/refs/floodfill.py']
 MIN_REACH = {'source_finder:SourceFinder.find_sources_in_image': 1}
-MIN_COUNTERS = {'island_rows_compared_sign_symmetry': 30, 'rows_compared_sign_symmetry': 50, 'filter_sets_checked': 5, 'single_polarity_islands_compared': 20}
+MIN_COUNTERS = {'reused_finder_runs': 50, 'island_rows_compared_sign_symmetry': 30, 'rows_compared_sign_symmetry': 50, 'filter_sets_checked': 5, 'single_polarity_islands_compared': 20}
 BATCHES_PER_JOB = 2
 KEY_MIXED = 'mixed-polarity-island'
 FLOATS = ['ra', 'dec', 'a', 'b', 'pa', 'err_ra', 'err_dec', 'err_peak_flux', 'err_int_flux', 'err_a', 'err_b', 'err_pa',
@@ -65,10 +65,11 @@ def cases(seed, tier):
     return out
 
 
-def _find(fn, case, aux, nopositive=False, nonegative=False):
+def _find(fn, case, aux, nopositive=False, nonegative=False, sf=None):
     from AegeanTools.source_finder import SourceFinder
     import logging
-    sf = SourceFinder(log=logging.getLogger('aegmon-null'))
+    if sf is None:
+        sf = SourceFinder(log=logging.getLogger('aegmon-null'))
     kw = dict(cores=1, docov=case['docov'], nopositive=nopositive, nonegative=nonegative, doislandflux=True)
     if aux is None:
         kw.update(rms=1.0, bkg=0.0)
@@ -264,6 +265,38 @@ def run(case):
                             o.violate('filtered_row_differs_from_unfiltered', dict(ctx, key=list(k), column=col, filtered=repr(a_), both=repr(b_)))
                             break
             o.count('filtered_rows_checked', len(kp) + len(kn))
+            # ---- one finder object used for all four polarity settings in turn (a script looping over the settings): every
+            #      answer must be the one a fresh finder gives for that setting
+            from AegeanTools.source_finder import SourceFinder
+            import logging
+            fresh = {(False, False): ca, (False, True): cp, (True, False): cn, (True, True): ce}
+            order = list(fresh)
+            rng = rng_for('c13reuse', case['field']['noise_seed'], case['docov'])
+            order = [order[i] for i in rng.permutation(4)] + [order[int(rng.integers(0, 4))]]
+            sf = SourceFinder(log=logging.getLogger('aegmon-null'))
+            for step, (nop, non) in enumerate(order):
+                R = _guard(o, ctx, lambda: _find(pos, case, aux_p, nopositive=nop, nonegative=non, sf=sf))
+                o.n_eval += 1
+                if R is None:
+                    break
+                cr, _ = _split(R)
+                o.count('reused_finder_runs')
+                want = {(r['island'], r['source']): r for r in fresh[(nop, non)]}
+                got = {(r['island'], r['source']): r for r in cr}
+                w = dict(ctx, step=step, settings_so_far=[list(x) for x in order[:step + 1]], nopositive=nop, nonegative=non)
+                if set(want) != set(got):
+                    o.violate('reused_finder_differs_from_fresh', dict(w, only_reused=sorted(set(got) - set(want))[:5],
+                                                                       only_fresh=sorted(set(want) - set(got))[:5],
+                                                                       n_reused=len(got), n_fresh=len(want)))
+                    continue
+                for k in want:
+                    bad = [c for c in FLOATS + NEGATED + ['flags'] if not (got[k][c] == want[k][c] or (
+                        isinstance(got[k][c], float) and isinstance(want[k][c], float) and np.isnan(got[k][c]) and np.isnan(want[k][c])))]
+                    if bad:
+                        o.violate('reused_finder_differs_from_fresh', dict(w, key=list(k), columns=bad[:6],
+                                                                           reused={c: repr(got[k][c]) for c in bad[:3]},
+                                                                           fresh={c: repr(want[k][c]) for c in bad[:3]}))
+                        break
         o.sample = {'ctx': ctx, 'components': len(ca), 'positive': sum(1 for r in ca if r['peak_flux'] > 0),
                     'negative': sum(1 for r in ca if r['peak_flux'] < 0), 'mixed_islands': sum(1 for v in mixed_a.values() if v)}
         return o.result()
